@@ -59,6 +59,28 @@ HIST_MENU = {"all": HISTS, "six": HISTS6, "len1": HISTS1}
 REAL_ALGOS = ["DQN", "PPO", "MADDPG"]
 
 
+def _resynced(agent, key, st):
+    from ..fixtures import hpo
+
+    """is `key` a weight of a registered shared/target network that equals the same weight of the copy's own eval network?"""
+    try:
+        _, rest = key.split(":", 1)
+        attr = rest.split("[")[0].split(":")[0]
+        for g in agent.registry.groups:
+            if g.shared is None:
+                continue
+            shared = g.shared if isinstance(g.shared, list) else [g.shared]
+            flat = [x for s_ in shared for x in (s_ if isinstance(s_, list) else [s_])]
+            if attr in flat:
+                ek = key.replace(f":{attr}[", f":{g.eval}[", 1)
+                return ek in st and hpo.state_equal(st[key], st[ek])
+        if attr == "target_params":
+            return True
+    except Exception:
+        return False
+    return False
+
+
 def bounds(tier):
     q = tier == "quick"
     return {
@@ -74,7 +96,8 @@ def bounds(tier):
                        + ("3 for population_size<=2, 2 for population_size 3..4" if q else "3 for population_size<=3, 2 for population_size 4")),
         },
         "real_layer": {"algorithms": REAL_ALGOS, "P": 3, "population_size": 3, "tournament_size": 2, "eval_loop": 2,
-                       "elitism": [False, True], "tie_patterns": 13, "draws": "9 answers per child, children independently"},
+                       "elitism": [False, True], "tie_patterns": 13, "draws": "9 answers per child, children independently",
+                       "wiring": "one call of utils.tournament_selection_and_mutation (no-op mutation pass) per configuration, judged for size, sources, indices, old population"},
     }
 
 
@@ -227,15 +250,17 @@ def judge_select(p: Partial, kp, old, old_scores, snaps_before, snaps_after, cfg
         changed = [i for i in range(P) if i >= len(snaps_after) or snaps_before[i] != snaps_after[i]]
         p.viol(f"{kp}/old-population-modified", f"select changed the old population (members {changed}) cfg={cfg}", rp)
         ok = False
-    # elite
-    epos, ehops = root_fn(elite)
-    if epos is None:
+    # elite (elite=None: the caller's interface does not return it, e.g. tournament_selection_and_mutation)
+    epos, ehops = root_fn(elite) if elite is not None else (None, 1)
+    if elite is None:
+        pass
+    elif epos is None:
         p.viol(f"{kp}/elite/not-a-copy-of-a-member", f"the returned elite does not descend from any member; cfg={cfg}", rp)
         return False, None
-    if ehops == 0:
+    elif ehops == 0:
         p.viol(f"{kp}/elite/is-the-member-itself-not-a-copy", f"select returned member {epos} itself as elite; cfg={cfg}", rp)
         ok = False
-    if old_scores[epos] != best:
+    if elite is not None and old_scores[epos] != best:
         p.viol(f"{kp}/elite/not-maximal-mean", f"elite descends from member {epos} (6*mean={old_scores[epos]}), best is {best} in {old_scores}; cfg={cfg}", rp,
                observed=epos, expected=[i for i, s in enumerate(old_scores) if s == best])
         ok = False
@@ -262,6 +287,11 @@ def judge_select(p: Partial, kp, old, old_scores, snaps_before, snaps_after, cfg
     first_child = 0
     if el:
         first_child = 1
+        if elite is None:
+            epos = src[0]
+            if old_scores[epos] != best:
+                p.viol(f"{kp}/elitism/first-member-not-maximal-mean", f"new[0] descends from member {epos} (6*mean {old_scores[epos]}), best is {best}; cfg={cfg}", rp)
+                ok = False
         if src[0] != epos:
             p.viol(f"{kp}/elitism/first-member-not-the-elite", f"new[0] descends from member {src[0]}, the elite from {epos}; cfg={cfg}", rp,
                    observed=src[0], expected=epos)
@@ -359,7 +389,9 @@ def run_a1(task, p: Partial):
             p.dg(ev, hists, len(scripts))
     p.states += len(states)
     p.sample({"layer": "a1", "P": P, "population_size": ps, "k": k, "elitism": el, "histories": len(hs) ** (P - 1) * len(first),
-              "scripts_per_population": len(scripts), "script_mode": "full-product" if (P ** k) ** n <= FULL_PRODUCT_CAP else "per-child"})
+              "scripts_per_population": len(scripts), "script_mode": "full-product" if (P ** k) ** n <= FULL_PRODUCT_CAP else "per-child",
+              "last_case": {"eval_loop": ev, "fitness": [list(h) for h in hists], "draws_per_child": draws,
+                            "new_population": None if not ok else [{"index": m.index, "fitness": m.fitness} for m in new]}})
 
 
 def app_values(ps):
@@ -457,12 +489,15 @@ def run_b(task, p: Partial):
     scripts = [[decode_draw((c + j) % D, P, k) for j in range(n)] for c in range(D)]
     if task.get("point") is not None:
         scripts = [task["point"]]
+    if task.get("wired"):
+        first_script, scripts = scripts[0], []
     base = {kk: task[kk] for kk in ("layer", "algo", "tie", "el")}
     members = list(pop)
     st_before = [hpo.agent_state(a) for a in pop]
     dig_before = [hpo.state_digest(s) for s in st_before]
     stor_before = [hpo.storages(s) for s in st_before]
     kp = "TS/real"
+    src = draws = None
     for draws in scripts:
         rp = {**base, "point": draws}
         d = Draws(P, k, lambda c: draws[c] if c < len(draws) else [0] * k)
@@ -504,6 +539,7 @@ def run_b(task, p: Partial):
         snaps_b = [(st_before[i]["attr:_index"], dig_before[i]) for i in range(P)]
         snaps_a = [(st_after[i]["attr:_index"], dig_after[i]) for i in range(P)]
         ok, src = judge_select(p, kp, members, scores, snaps_b, snaps_a, cfg, draws, d.calls, elite, new, set(range(P)), root, rp, same_list)
+        ok_sel = ok
         if src is not None:
             # fidelity: every member (and the elite) equals its source field by field and shares no storage with anybody
             objs = [("elite", elite, root(elite)[0])] + [(f"new[{j}]", m, src[j]) for j, m in enumerate(new)]
@@ -520,6 +556,10 @@ def run_b(task, p: Partial):
                         continue
                     if key not in sm or key not in so or not hpo.state_equal(sm[key], so[key]):
                         kind = key.split(":")[0]
+                        if kind in ("net", "td") and key in sm and _resynced(m, key, sm):
+                            # a target/shared network that the algorithm re-synchronises with the copy's own online
+                            # network on every copy may differ from the source's lagging target (C01's clause)
+                            continue
                         what = {"attr": "attribute", "arch": "architecture", "net": "weights", "td": "detached-parameters",
                                 "opt": "optimizer-state", "reg": "hyperparameter-config"}[kind]
                         if kind == "arch" and key in sm and key in so:
@@ -559,14 +599,63 @@ def run_b(task, p: Partial):
                     p.viol(f"{kp}/copy-shares-tensor-storage/{what}", f"{algo}: {n1} and {n2} share tensor storage: {hit[:3]}", rp)
                     ok = False
                     break
-        if ok:
+        if ok_sel:
             dup = any(len(set(Dj)) < len(Dj) for Dj in draws)
             if dup or len(set(levels)) < 3:
                 p.nt(f"real:{algo}:{'E' if el else 'n'}:{''.join(map(str, levels))}:{'dup' if dup else 'nodup'}")
             p.out(f"real:{algo}:{'E' if el else 'n'}:{''.join(map(str, src))}")
         p.dg(draws, src, ok)
+    # the same selection through the wiring every training loop uses (selection followed by a no-op mutation pass)
+    if task.get("point") is None or task.get("wired"):
+        from agilerl.hpo.mutation import Mutations
+        from agilerl.utils.utils import tournament_selection_and_mutation
+
+        draws = first_script if task.get("wired") else scripts[0]
+        rp = {**base, "point": draws, "wired": True}
+        d = Draws(P, k, lambda c: draws[c] if c < len(draws) else [0] * k)
+        parent_of, keep = {}, []
+        orig_clone = EvolvableAlgorithm.clone
+
+        def recording_clone2(self, *a, **kw):
+            c = orig_clone(self, *a, **kw)
+            keep.append(c)
+            parent_of[id(c)] = self
+            return c
+
+        def root2(m):
+            x, hops = m, 0
+            while x is not None:
+                for i, a in enumerate(members):
+                    if x is a:
+                        return i, hops
+                x = parent_of.get(id(x))
+                hops += 1
+            return None, hops
+
+        p.evaluations += 1
+        p.transitions += 1
+        p.traces += 1
+        new = None
+        with seeded(3), patched(np.random, "randint", d), patched(EvolvableAlgorithm, "clone", recording_clone2):
+            try:
+                mut = Mutations(no_mutation=1, architecture=0, new_layer_prob=0, parameters=0, activation=0, rl_hp=0, rand_seed=0)
+                new = tournament_selection_and_mutation(pop, ts, mut, "verif-env", algo=algo, elite_path=None, save_elite=False)
+            except HarnessError:
+                raise
+            except Exception as e:
+                p.viol(f"TS/wired/exception/{type(e).__name__}", f"{algo}: tournament_selection_and_mutation raised {e!r}", rp)
+        if new is not None:
+            st_after = [hpo.agent_state(a) for a in pop]
+            snaps_a = [(st_after[i]["attr:_index"], hpo.state_digest(st_after[i])) for i in range(P)]
+            snaps_b = [(st_before[i]["attr:_index"], dig_before[i]) for i in range(P)]
+            same_list = len(pop) == P and all(a is b for a, b in zip(pop, members))
+            ok, src = judge_select(p, "TS/wired", members, scores, snaps_b, snaps_a, cfg, draws, d.calls, None, new, set(range(P)), root2, rp, same_list)
+            p.dg("wired", src, ok)
+            if ok:
+                p.out(f"wired:{algo}:{'E' if el else 'n'}:{''.join(map(str, src))}")
     p.states += 1
-    p.sample({"layer": "b", "algo": algo, "tie_levels": list(levels), "elitism": el, "select_calls": len(scripts)})
+    p.sample({"layer": "b", "algo": algo, "tie_levels": list(levels), "elitism": el, "select_calls": len(scripts),
+              "fitness": [list(a.fitness) for a in members], "last_case": {"draws_per_child": draws, "sources_of_new_population": src}})
 
 
 def run_task(task):
